@@ -316,11 +316,15 @@ func (e *Exec) applyContract(st *State, fr *Frame, site ssa.Instruction, c *Cont
 	var sig *types.Signature
 	if fn != nil {
 		sig = fn.Signature
-		e.havocMod(st, e.modOfContract(c, fn))
 	} else {
-		e.havocMod(st, e.modOfContract(c, nil))
 		sig = e.sigOfContract(c, ctx)
 	}
+	declared := e.modOfContract(c, fn)
+	e.havocMod(st, declared)
+	// Heaps the body writes but the contract does not declare are left as they
+	// are: the callee's FRAME obligations show that objects existing before the
+	// call keep their contents, and what the post-condition says about objects the
+	// callee allocated is assumed of memory that was unconstrained (A-FRESH).
 	var res Val
 	rs := sig.Results()
 	switch rs.Len() {
@@ -426,11 +430,10 @@ func (e *Exec) havocMod(st *State, mod map[string]Sort) {
 		}
 		e.havocHeap(st, name, s)
 	}
-	// allocation grows
-	na := Const(freshName("alloc@h"), ArrSort(SBool))
-	x := BoundVar("x", SInt)
+	// allocation grows: time moves on by an unknown amount
+	na := Const(freshName("now"), SInt)
 	e.sol.DeclareConst(na)
-	e.assume(Forall([]*Term{x}, Implies(Select(st.alloc, x), Select(na, x)), []*Term{Select(na, x)}))
+	e.assume(Ge(na, st.alloc))
 	st.alloc = na
 }
 
